@@ -210,6 +210,35 @@ size_t get_numeric_storage_size(const Variable &var, bool is_multidim,
     return var.array_values.size();
 }
 
+// An element reference used as the initializer of an array declaration, a
+// row of a multidimensional array (int[3] r = m[i];): every index has to lie
+// inside its own dimension of m, as in any other element access.
+void check_initializer_element_indices(Interpreter *interpreter,
+                                       const ASTNode *ref) {
+    if (!interpreter || !ref) {
+        return;
+    }
+    std::string source_name = interpreter->extract_array_name(ref);
+    if (source_name.empty()) {
+        return;
+    }
+    std::vector<int64_t> indices = interpreter->extract_array_indices(ref);
+    Variable *source_var = interpreter->find_variable(source_name);
+    if (source_var && source_var->is_reference && source_var->is_array &&
+        source_var->value != 0) {
+        source_var = reinterpret_cast<Variable *>(source_var->value);
+    }
+    if (!source_var || !source_var->is_array) {
+        return;
+    }
+    for (size_t d = 0;
+         d < indices.size() && d < source_var->array_dimensions.size(); d++) {
+        if (indices[d] < 0 || indices[d] >= source_var->array_dimensions[d]) {
+            throw std::runtime_error("Array index out of bounds");
+        }
+    }
+}
+
 } // namespace
 
 void ArrayManager::processArrayDeclaration(Variable &var, const ASTNode *node) {
@@ -1012,6 +1041,9 @@ void ArrayManager::processArrayDeclaration(Variable &var, const ASTNode *node) {
                     }
                 }
             }
+        } else if (node->init_expr->node_type == ASTNodeType::AST_ARRAY_REF) {
+            check_initializer_element_indices(interpreter_,
+                                              node->init_expr.get());
         }
     }
 
@@ -1785,6 +1817,11 @@ void ArrayManager::declare_array(const ASTNode *node) {
     // 将来的にはArrayProcessingServiceによる統一化が推奨されます。
     // 現在はstruct配列処理等の特殊ケースのために維持されています。
     Variable var;
+
+    if (node->init_expr &&
+        node->init_expr->node_type == ASTNodeType::AST_ARRAY_REF) {
+        check_initializer_element_indices(interpreter_, node->init_expr.get());
+    }
 
     debug_msg(DebugMsgId::ARRAY_DECL_START, node->name.c_str());
     debug_msg(DebugMsgId::ARRAY_DIMENSIONS_COUNT,
